@@ -23,7 +23,7 @@ from __future__ import annotations
 import functools
 import typing
 
-from urwid.str_util import calc_text_pos, calc_width, get_char_width, is_wide_char, move_next_char, move_prev_char
+from urwid.str_util import calc_text_pos, calc_width, is_wide_char, move_next_char, move_prev_char
 from urwid.util import calc_trim_text, get_encoding
 
 if typing.TYPE_CHECKING:
@@ -42,9 +42,10 @@ def get_ellipsis_string(encoding: str) -> str:
 
 
 @functools.lru_cache(maxsize=4)
-def _get_width(string) -> int:
-    """Get ellipsis character width for given encoding."""
-    return sum(get_char_width(char) for char in string)
+def _get_width(string: str, encoding: str) -> int:
+    """Get ellipsis character width for given encoding (screen columns of the encoded text)."""
+    encoded = string.encode(encoding)
+    return calc_width(encoded, 0, len(encoded))
 
 
 class TextLayout:
@@ -184,10 +185,10 @@ class StandardTextLayout(TextLayout):
         nl: str | bytes = "\n" if isinstance(text, str) else b"\n"
         encoding = get_encoding()
         ellipsis_string = get_ellipsis_string(encoding)
-        ellipsis_width = _get_width(ellipsis_string)
+        ellipsis_width = _get_width(ellipsis_string, encoding)
         while width - 1 < ellipsis_width and ellipsis_string:
             ellipsis_string = ellipsis_string[:-1]
-            ellipsis_width = _get_width(ellipsis_string)
+            ellipsis_width = _get_width(ellipsis_string, encoding)
 
         ellipsis_char = ellipsis_string.encode(encoding)
 
